@@ -159,14 +159,17 @@ def grid_inputs(limit=None):
     return out
 
 
-def canon_out(o):
+def canon_out(o, with_global=False):
     """Canonical form of an outcome for membership comparison."""
     posts = []
     for p in o['posts']:
         ts = sorted((x['t'], x['state'], x['series']) for x in (p.get('targets') or []))
         posts.append((bool(p['sent']), bool(p['ok']), tuple(ts)))
     reqs = tuple(tuple(r or []) for r in o['reqs'])
-    return json.dumps([reqs, posts, list(o['scales'] or []), bool(o.get('panic'))])
+    g = []
+    if with_global:
+        g = [(x['t'], x['health'], x['series'], x['total'], x['times'], x['state'], tuple(x['shards'] or [])) for x in (o.get('global') or [])]
+    return json.dumps([reqs, posts, list(o['scales'] or []), bool(o.get('panic')), g])
 
 
 def cfg_text(infile, outfile, consts, invariants):
@@ -217,7 +220,7 @@ def run_pipeline(tier, scratch, sizes=None, inputs=None, consts=None):
     model = {}
     model_viol = {}
     for r in C.read_ndjson(outf):
-        model.setdefault(r['id'], set()).add(canon_out(r['out']))
+        model.setdefault(r['id'], set()).add(canon_out(r['out'], True))
         for p in r.get('viol') or []:
             model_viol.setdefault(p, set()).add(r['id'])
     t_model = time.time() - t0
@@ -232,7 +235,7 @@ def run_pipeline(tier, scratch, sizes=None, inputs=None, consts=None):
     byid = {i['id']: i for i in inputs}
     seen_outcomes = {}
     for o in obs:
-        c = canon_out(o['out'])
+        c = canon_out(o['out'], True)
         seen_outcomes.setdefault(o['id'], set()).add(c)
         if c not in model.get(o['id'], ()):
             drift.append(dict(id=o['id'], observed=o['out'], model_outcomes=len(model.get(o['id'], ()))))
